@@ -4,6 +4,7 @@ import datetime
 import math
 import zoneinfo
 
+from typing import Any
 from typing import NamedTuple
 from typing import cast
 
@@ -164,7 +165,20 @@ def precise_diff(
     """
     sign = 1
 
-    if d1 == d2:
+    # Two datetimes sharing their tzinfo are compared on their wall clock by the
+    # native operators (fold and offset are ignored): order them by instant
+    k1: Any = d1
+    k2: Any = d2
+    if (
+        isinstance(d1, datetime.datetime)
+        and isinstance(d2, datetime.datetime)
+        and d1.tzinfo is not None
+        and d1.tzinfo is d2.tzinfo
+    ):
+        k1 = d1.replace(tzinfo=None) - cast(datetime.timedelta, d1.utcoffset())
+        k2 = d2.replace(tzinfo=None) - cast(datetime.timedelta, d2.utcoffset())
+
+    if k1 == k2:
         return PreciseDiff(0, 0, 0, 0, 0, 0, 0, 0)
 
     tzinfo1: datetime.tzinfo | None = (
@@ -184,7 +198,7 @@ def precise_diff(
             "Comparison between naive and aware datetimes is not supported"
         )
 
-    if d1 > d2:
+    if k1 > k2:
         d1, d2 = d2, d1
         sign = -1
 
